@@ -2,6 +2,7 @@ package main
 
 import (
 	"fmt"
+	"go/constant"
 	"go/token"
 	"go/types"
 	"sort"
@@ -519,6 +520,35 @@ func assignTargetAcceptance(p *Program, f *ssa.Function) targetAcceptance {
 	}
 	cases := typeCasesOn(f, left)
 	F := FactsOf(f)
+	if len(cases) == 0 {
+		// the validation is a predicate helper: ok(left) holds where the operator is consumed
+		for _, call := range callsIn(f) {
+			g := call.Common().StaticCallee()
+			cv, isVal := call.(*ssa.Call)
+			if g == nil || !isVal || !p.InLang(g) || len(g.Blocks) == 0 || g.Signature.Results().Len() != 1 || !isBoolType(g.Signature.Results().At(0).Type()) {
+				continue
+			}
+			j := -1
+			for i, a := range call.Common().Args {
+				if a == ssa.Value(left) {
+					j = i
+				}
+			}
+			if j < 0 || j >= len(g.Params) {
+				continue
+			}
+			if known, val := F.At(consume.Block()).Truth(cv); !known || !val {
+				continue
+			}
+			res = predicateAcceptance(p, g, g.Params[j], types_)
+			for _, rc := range p.successResults(f) {
+				if known, val := F.At(rc.Ret.Block()).Truth(cv); !known || !val {
+					res.perType["any node (the successful return at "+p.InstrPos(rc.Ret)+" is not under "+shortName(g)+"(left))"] = "accept"
+				}
+			}
+			return res
+		}
+	}
 	// the validation comes first: its first type test dominates the consumption of the operator and
 	// every successful return (a return that precedes it hands out an unvalidated node)
 	if len(cases) > 0 {
@@ -639,6 +669,141 @@ func assignTargetAcceptance(p *Program, f *ssa.Function) targetAcceptance {
 		}
 	}
 	return res
+}
+
+// predicateAcceptance: g(expr) bool is the target validation; per Expr type, can it return true?
+// The leaves of the returned boolean are followed through the phi of the return block: a leaf
+// `false` rejects, a leaf `true` accepts (guarded when the edge carries OpToken.Tag == Dot /
+// LSquare on the asserted node), a leaf that is itself that comparison accepts member / index.
+func predicateAcceptance(p *Program, g *ssa.Function, subject ssa.Value, types_ []string) targetAcceptance {
+	res := targetAcceptance{perType: map[string]string{}}
+	cases := typeCasesOn(g, subject)
+	if len(cases) == 0 {
+		res.undecided = "the validation predicate " + shortName(g) + " has no type switch on its argument"
+		return res
+	}
+	F := FactsOf(g)
+	tagNames := constNames(p.Lang.Types, "TokenTag")
+	isMemberTest := func(r rel, tv ssa.Value) bool {
+		if r.op != relEQ {
+			return false
+		}
+		k, ok := constInt(r.y)
+		if !ok {
+			return false
+		}
+		if n := tagNames[k]; n != "Dot" && n != "LSquare" {
+			return false
+		}
+		if !derivesFrom(r.x, func(x ssa.Value) bool { return x == tv }, 0) {
+			return false
+		}
+		sf, ok := loadedField(r.x)
+		return ok && sf.Name == "Tag"
+	}
+	type leaf struct {
+		at    *ssa.BasicBlock // the block the leaf belongs to (the predecessor for a phi edge)
+		facts factSet
+		v     ssa.Value
+	}
+	var leaves []leaf
+	var expand func(v ssa.Value, at *ssa.BasicBlock, fs factSet, d int)
+	expand = func(v ssa.Value, at *ssa.BasicBlock, fs factSet, d int) {
+		if ph, ok := v.(*ssa.Phi); ok && d < 4 {
+			for i, e := range ph.Edges {
+				pred := ph.Block().Preds[i]
+				expand(e, pred, F.OnEdge(pred, ph.Block()), d+1)
+			}
+			return
+		}
+		leaves = append(leaves, leaf{at, fs, v})
+	}
+	for _, r := range returnsOf(g) {
+		expand(effectiveResults(r)[0], r.Block(), F.At(r.Block()), 0)
+	}
+	regionOf := map[string]map[*ssa.BasicBlock]bool{}
+	tvOf := map[string]ssa.Value{}
+	for _, tn := range types_ {
+		var tc *typeCase
+		for i := range cases {
+			if cases[i].TypeName == tn && (tc == nil || cases[i].Assert.Block().Dominates(tc.Assert.Block())) {
+				tc = &cases[i]
+			}
+		}
+		if tc != nil {
+			regionOf[tn] = caseRegion(*tc)
+			tvOf[tn] = typeCaseValue(*tc)
+		}
+	}
+	for _, tn := range types_ {
+		verdict := "reject"
+		for _, lf := range leaves {
+			if k, ok := lf.v.(*ssa.Const); ok && k.Value != nil && k.Value.Kind() == constant.Bool && !constant.BoolVal(k.Value) {
+				continue
+			}
+			// does the leaf apply to this type?
+			inOther := false
+			for other, reg := range regionOf {
+				if other != tn && reg[lf.at] {
+					inOther = true
+				}
+			}
+			if reg, has := regionOf[tn]; has {
+				if !reg[lf.at] {
+					// outside the type's own case: reachable for it only past the switch; a leaf in
+					// another type's case is not, one in no case at all is judged conservatively
+					if inOther {
+						continue
+					}
+					if !reachableFrom([]*ssa.BasicBlock{caseEntryOf(cases, tn)}, nil)[lf.at] {
+						continue
+					}
+				}
+			} else if inOther {
+				continue
+			}
+			guarded := false
+			if tv := tvOf[tn]; tv != nil {
+				for _, r := range lf.facts.Rels() {
+					if isMemberTest(r, tv) {
+						guarded = true
+					}
+				}
+				if b, ok := lf.v.(*ssa.BinOp); ok {
+					if r, ok := relsOf(fact{b, true}); ok && isMemberTest(r, tv) {
+						guarded = true
+					}
+				}
+			}
+			if guarded {
+				if verdict == "reject" {
+					verdict = "accept-if-member-or-index"
+				}
+			} else {
+				verdict = "accept"
+			}
+		}
+		res.perType[tn] = verdict
+	}
+	return res
+}
+
+func isBoolType(T types.Type) bool {
+	b, ok := T.Underlying().(*types.Basic)
+	return ok && b.Info()&types.IsBoolean != 0
+}
+
+func caseEntryOf(cases []typeCase, tn string) *ssa.BasicBlock {
+	var tc *typeCase
+	for i := range cases {
+		if cases[i].TypeName == tn && (tc == nil || cases[i].Assert.Block().Dominates(tc.Assert.Block())) {
+			tc = &cases[i]
+		}
+	}
+	if tc == nil {
+		return nil
+	}
+	return tc.Entry
 }
 
 // R4 grouping-parens
